@@ -547,3 +547,106 @@ def gen_edges(seed, count):
 
 
 PYGEN['py_edges'] = gen_edges
+
+
+def gen_c08(seed, count):
+    """valid inbound traffic with every property a broker may attach: PUBLISH (payload format, expiry, content type,
+    response topic, correlation data, one or several subscription identifiers, user properties; all QoS, DUP, RETAIN),
+    acknowledgements with and without reason code, reason string and user properties, SUBACK / UNSUBACK with
+    property blocks, CONNACK with every server property, DISCONNECT with reason string / server reference."""
+    out = []
+    words = [b'a', b'topic/x', b'r\xc3\xa9ponse', b'0123456789abcdef', b'']
+
+    def pub_props(r):
+        ps = []
+        if r.random() < 0.4:
+            ps.append((1, r.choice([0, 1])))
+        if r.random() < 0.3:
+            ps.append((2, r.choice([0, 1, 3600, 2 ** 32 - 1])))
+        if r.random() < 0.3:
+            ps.append((3, r.choice(words)))
+        if r.random() < 0.3:
+            ps.append((8, r.choice(words[:4])))
+        if r.random() < 0.3:
+            ps.append((9, bytes(r.randint(0, 255) for _ in range(r.randint(0, 6)))))
+        for _ in range(r.choice([0, 0, 1, 1, 2, 3])):
+            ps.append((11, r.choice([1, 5, 127, 128, 300, 16384, 268435455])))
+        for _ in range(r.choice([0, 0, 1, 2])):
+            ps.append((38, (r.choice(words), r.choice(words))))
+        r.shuffle(ps)
+        return ps
+
+    def ack_props(r):
+        ps = []
+        if r.random() < 0.5:
+            ps.append((31, r.choice(words)))
+        for _ in range(r.choice([0, 1, 2])):
+            ps.append((38, (r.choice(words), r.choice(words))))
+        return ps
+
+    from casegen import pkt, enc_props
+    for idx in range(count):
+        r = random.Random((seed << 20) ^ idx ^ 0xC08)
+        c = Case(rx=r.choice([64, 128, 256]), tx=r.choice([128, 256]))
+        cprops = []
+        for pid, vals in ((17, [0, 60]), (33, [1, 8, 65535]), (36, [0, 1]), (37, [0, 1]), (39, [64, 1000, 2 ** 32 - 1]),
+                          (18, [b'assigned']), (34, [0, 5]), (31, [b'ok']), (40, [0, 1]), (41, [0, 1]), (42, [0, 1]), (19, [0, 30]),
+                          (28, [b'other:1883'])):
+            if r.random() < 0.25:
+                cprops.append((pid, r.choice(vals)))
+        for _ in range(r.choice([0, 0, 1])):
+            cprops.append((38, (r.choice(words), r.choice(words))))
+        ck = connack(0, 0, cprops)
+        if len(ck) > c.cfg[0]:
+            ck = connack()
+        c.connect(ck)
+        nsub = 0
+        for _ in range(r.randint(2, 7)):
+            x = r.random()
+            if x < 0.45:
+                q = r.choice([0, 1, 2])
+                payload = r.choice([b'', b'x', b'hello', 'grüß'.encode()])
+                ps = pub_props(r)
+                b = publish(q, r.randint(1, 9), r.choice(words[:4]), payload, ps, dup=(q > 0 and r.random() < 0.2),
+                            retain=r.random() < 0.3)
+                if len(b) <= c.cfg[0]:
+                    c.feed(b)
+                    (c.poll if r.random() < 0.8 else c.recv)()
+                    c.poll()
+            elif x < 0.6:
+                q = r.choice([1, 2])
+                c.publish(b'a', b'p', qos=q)
+                pid_guess = None
+                c.poll()
+            elif x < 0.75:
+                # acknowledgement for whatever identifier (known or stale), with reason code and properties
+                typ = r.choice([4, 5, 7])
+                pid = r.randint(1, 4)
+                rc = r.choice([None, 0, 0, 0x10, 0x80, 0x97]) if typ != 7 else r.choice([None, 0, 0x92])
+                if rc is None or r.random() < 0.5:
+                    b = ack(typ, pid, rc)
+                else:
+                    b = pkt(typ << 4, pid.to_bytes(2, 'big') + bytes([rc]) + enc_props(ack_props(r)))
+                c.feed(b).poll()
+            elif x < 0.85:
+                c.subscribe()
+                nsub += 1
+                b = pkt(0x90, r.randint(1, 4).to_bytes(2, 'big') + enc_props(ack_props(r)) + bytes([r.choice([0, 1, 2, 0x80, 0x87])]))
+                c.feed(b).poll()
+            elif x < 0.9:
+                c.unsubscribe()
+                b = pkt(0xB0, r.randint(1, 4).to_bytes(2, 'big') + enc_props(ack_props(r)) + bytes([r.choice([0, 0x11, 0x80])]))
+                c.feed(b).poll()
+            elif x < 0.95:
+                c.feed(bytes([0x62, 2]) + r.randint(1, 9).to_bytes(2, 'big')).poll()
+            else:
+                c.feed(PINGRESP).poll()
+        if r.random() < 0.3:
+            dps = ack_props(r) + ([(28, b'other:1883')] if r.random() < 0.5 else [])
+            rc = r.choice([0x00, 0x81, 0x8B, 0x8E, 0x98])
+            c.feed(pkt(0xE0, bytes([rc]) + enc_props(dps)) if r.random() < 0.7 else bytes([0xE0, 0])).poll()
+        out.append(c.line())
+    return out
+
+
+PYGEN['py_c08'] = gen_c08
